@@ -35,6 +35,7 @@ void set_flaky(int kind, int period);   // every period-th call of `kind` fails 
 void begin_op(const std::vector<Fault> &faults);
 OpStats end_op();
 int open_fds();                // descriptors handed out and not yet closed
+int open_unmapped_fds();       // ... of which no live mapping exists (an fd kept for a live region is not a leak)
 int live_mappings();           // mappings handed out and not yet unmapped
 std::string open_fd_desc();
 uint64_t flaky_fired();
